@@ -461,6 +461,13 @@ func isoClasses() []isoClass {
 			doc(`<mj-head><mj-attributes><mj-all font-family="Roboto"/><mj-text color="#0000ff" font-size="11px"/><mj-button background-color="#00ff00"/></mj-attributes></mj-head>`)},
 		{"mj-class", doc(`<mj-head><mj-attributes><mj-class name="m1" background-color="#111111" font-size="9px"/></mj-attributes></mj-head>`),
 			doc(`<mj-head><mj-attributes><mj-class name="m1" background-color="#eeeeee" font-size="30px"/></mj-attributes></mj-head>`)},
+		// the same list of several classes on the same elements, the classes defined differently, partly, or not at all
+		{"mj-class-list", strings.ReplaceAll(doc(`<mj-head><mj-attributes><mj-class name="m1" background-color="#111111" font-size="9px"/><mj-class name="m2" color="#222222" font-size="22px" css-class="from-a"/></mj-attributes></mj-head>`), `mj-class="m1"`, `mj-class="m1 m2"`),
+			strings.ReplaceAll(doc(`<mj-head><mj-attributes><mj-class name="m2" color="#eeeeee" inner-padding="1px 2px"/><mj-class name="m1" background-color="#dddddd" font-size="30px" css-class="from-b"/></mj-attributes></mj-head>`), `mj-class="m1"`, `mj-class="m1 m2"`)},
+		{"mj-class-list-undefined", strings.ReplaceAll(doc(`<mj-head><mj-attributes><mj-class name="m1" background-color="#111111"/><mj-class name="m2" color="#222222" font-size="22px"/></mj-attributes></mj-head>`), `mj-class="m1"`, `mj-class="m1 m2"`),
+			strings.ReplaceAll(doc(``), `mj-class="m1"`, `mj-class="m1 m2"`)},
+		{"mj-class-list-partly", strings.ReplaceAll(strings.ReplaceAll(doc(`<mj-head><mj-attributes><mj-class name="m2" color="#222222" padding="1px"/></mj-attributes></mj-head>`), `mj-class="m1"`, `mj-class="m1 m2"`), `<mj-divider/>`, `<mj-divider mj-class="m1 m2"/>`),
+			strings.ReplaceAll(strings.ReplaceAll(doc(`<mj-head><mj-attributes><mj-class name="m1" border-width="7px" padding="3px"/></mj-attributes></mj-head>`), `mj-class="m1"`, `mj-class="m1 m2"`), `<mj-divider/>`, `<mj-divider mj-class="m1 m2"/>`)},
 		{"mj-font", doc(`<mj-head><mj-font name="Raleway" href="https://fonts.example/r.css"/></mj-head>`),
 			doc(`<mj-head><mj-font name="Pacifico" href="https://fonts.example/p.css"/></mj-head>`)},
 		{"inline-style", doc(`<mj-head><mj-style inline="inline">.ka { color: #123456; } .kb { color: #ff0000; }</mj-style></mj-head>`),
